@@ -240,8 +240,30 @@ def canon(line):
     return " | ".join(f"out={d.get('out')} cost={d.get('cost')}" for d in parse_segments(line))
 
 
-def oracle_line(ctx, case, metas, res, model_res=None):
+class Collector:
+    """keeps, per violation key, the failing case with the shortest input (reported) and a count"""
+
+    def __init__(self):
+        self.best = {}
+        self.count = {}
+
+    def violation(self, key, text, rep):
+        self.count[key] = self.count.get(key, 0) + 1
+        size = len(rep.get("case", ""))
+        if key not in self.best or size < self.best[key][0]:
+            self.best[key] = (size, text, rep)
+
+    def flush(self, ctx):
+        for key, (size, text, rep) in self.best.items():
+            ctx.violation(key, text, dict(rep, failing_cases_of_this_kind_in_run=self.count[key]))
+        if self.count:
+            ctx.coverage["violation_counts"] = dict(self.count)
+        self.best, self.count = {}, {}
+
+
+def oracle_line(ctx, case, metas, res, model_res=None, col=None):
     """evaluate the property on one harness result line; returns number of violations raised"""
+    sink = col if col is not None else ctx
     segs = parse_segments(res)
     msegs = parse_segments(model_res) if model_res else None
     n = 0
@@ -257,17 +279,17 @@ def oracle_line(ctx, case, metas, res, model_res=None):
             ctx.tie_broken("c02-reference-self-check", f"harness reference DP and brute force disagree on {case[:200]}")
             continue
         if d.get("fresh") != "same":
-            ctx.violation("viterbi-scratch-dependent", "decode() on an object that decoded something else before differs from decode() on a fresh object",
+            sink.violation("viterbi-scratch-dependent", "decode() on an object that decoded something else before differs from decode() on a fresh object",
                           rep)
             n += 1
         if OUT <= IN // 2:
             if omin != mn:
                 rep2 = dict(rep, true_minimum=mn, best_with_returned_bits=omin)
-                ctx.violation("viterbi-not-ml", "the returned bits are not the prefix of any minimum-distance input word "
+                sink.violation("viterbi-not-ml", "the returned bits are not the prefix of any minimum-distance input word "
                               "(no completion of them reaches the true minimum distance)", rep2)
                 n += 1
         if cost != (2 * mn + L) // (2 * L):
-            ctx.violation("viterbi-cost-wrong", "the returned cost is not the minimum distance divided by the soft limit, rounded to nearest",
+            sink.violation("viterbi-cost-wrong", "the returned cost is not the minimum distance divided by the soft limit, rounded to nearest",
                           dict(rep, true_minimum=mn, expected_cost=(2 * mn + L) // (2 * L)))
             n += 1
         if msegs and k < len(msegs) and "mmin" in msegs[k] and int(msegs[k]["mmin"]) != mn and OUT <= IN // 2:
@@ -278,14 +300,14 @@ def oracle_line(ctx, case, metas, res, model_res=None):
             got = [int(ch) for ch in d["out"] if ch in "01"]
             if m["kind"].startswith("clean") and m.get("unique_ok", False):
                 if got != m["payload"]:
-                    ctx.violation("viterbi-clean-not-decoded", "a clean code word (right signs, confidences 1..L, admissible erasures) "
+                    sink.violation("viterbi-clean-not-decoded", "a clean code word (right signs, confidences 1..L, admissible erasures) "
                                   "does not decode to its payload", dict(rep, expected_out="".join(map(str, m["payload"]))))
                     n += 1
                 elif m.get("full") and cost != 0:
-                    ctx.violation("viterbi-cost-wrong", "a full-confidence clean code word is reported with a non-zero cost", rep)
+                    sink.violation("viterbi-cost-wrong", "a full-confidence clean code word is reported with a non-zero cost", rep)
                     n += 1
             if m["kind"].startswith("flips") and "dfree" in m and 2 * m["flips"] < m["dfree"] and got != m["payload"]:
-                ctx.violation("viterbi-correctable-not-corrected", f"{m['flips']} sign flips (2e < dfree = {m['dfree']}) are not corrected",
+                sink.violation("viterbi-correctable-not-corrected", f"{m['flips']} sign flips (2e < dfree = {m['dfree']}) are not corrected",
                               dict(rep, expected_out="".join(map(str, m["payload"]))))
                 n += 1
     return n
@@ -388,12 +410,18 @@ def run(ctx):
         ctx.evaluations += 3 ** IN
         ctx.count("exhaustive-trits", 3 ** IN)
     ctx.coverage["exhaustive_sweeps"] = [f"W={W} IN={IN} OUT={OUT}: all 3^{IN} vectors of {{-L,0,+L}}" for W, IN, OUT in xs]
-    for i in (5, 5 + len(cases) // 2, 5 + len(cases) - 1):
+    def clip(x, n):
+        return x if len(x) <= n else x[:n] + f"...({len(x)} chars)"
+    picks = [i for i in range(5, 5 + len(cases)) if len(lines[i]) < 120][:2]
+    picks += [i for i in range(5, 5 + len(cases)) if lines[i].count(" ") > 5 and len(lines[i]) < 400][:1]
+    picks += [5]
+    for i in picks:
         if i < len(a):
-            ctx.sample({"case": lines[i][:160] + ("..." if len(lines[i]) > 160 else ""), "implementation": a[i][:200],
-                        "model": b[i][:120] if i < len(b) else None})
-    if a:
-        ctx.sample({"case": lines[2], "implementation": a[2][:300]})
+            ctx.sample({"case": clip(lines[i], 300), "implementation": clip(a[i], 200), "model": clip(b[i], 120) if i < len(b) else None})
+    if len(a) > 2:
+        ctx.sample({"case": lines[2], "implementation": clip(a[2], 400)})
+    if xs and len(a) == len(lines):
+        ctx.sample({"case": lines[-1], "implementation": clip(a[-1], 200)})
 
     # ---- (i) correspondence
     differing = []
@@ -427,14 +455,13 @@ def run(ctx):
 
     # ---- (ii) property oracle on the real code
     nviol = 0
+    col = Collector()
     if exe:
         for i, ms in enumerate(metas):
             if i >= len(a):
                 break
             if ms is not None:
-                nviol += oracle_line(ctx, lines[i], ms, a[i], b[i] if i < len(b) else None)
-                if nviol > 20:
-                    break
+                nviol += oracle_line(ctx, lines[i], ms, a[i], b[i] if i < len(b) else None, col)
             elif lines[i].startswith("x "):
                 f = dict(t.split("=", 1) for t in a[i].split() if "=" in t)
                 if f.get("viol", "0") != "0":
@@ -443,8 +470,9 @@ def run(ctx):
                     # re-run the first failing vector as an ordinary case to obtain the details
                     rc, o = ctx.run_exe(exe, input_text=f"q {W} {IN} {OUT} {first}\n")
                     v = [int(x) for x in first.split(",")] if first != "-" else []
-                    oracle_line(ctx, f"q {W} {IN} {OUT} {first}", [{"kind": "exhaustive", "W": W, "IN": IN, "OUT": OUT, "v": v}], o.strip())
+                    oracle_line(ctx, f"q {W} {IN} {OUT} {first}", [{"kind": "exhaustive", "W": W, "IN": IN, "OUT": OUT, "v": v}], o.strip(), None, col)
                     nviol += 1
+        col.flush(ctx)
         # the tie broke but nothing failed yet: search around the disagreeing cases with a larger budget
         if differing and not ctx.violations:
             r = ctx.rng.fork("c02-search")
@@ -471,8 +499,8 @@ def run(ctx):
                 for (line, ms), res in zip(extra, o.strip("\n").split("\n")):
                     ctx.case(line)
                     ctx.count("search-around-disagreement")
-                    if oracle_line(ctx, line, ms, res):
-                        break
+                    oracle_line(ctx, line, ms, res, None, col)
+                col.flush(ctx)
 
     ctx.notes.append("interpretation: the decoder minimises over all IN/2-bit inputs (free tail); 'optimal among zero-terminated code words' is "
                      "refuted by c02_viterbi_terminated_ml_refuted (W=4, IN=12, OUT=2, r=[5,-3,7,-3,0,7,0,7,7,5,-7,0]: returns 11, whose "
